@@ -41,21 +41,35 @@ fn flatten_object(prefix: &str, val: &Value, config: &mut HashMap<String, Value>
 
 fn to_emmyrc_json(config: &FlattenConfigObject) -> Value {
     let mut emmyrc = Value::Object(Default::default());
-    for (k, v) in &config.config {
+    // the flat map is randomly seeded: visit the keys in a fixed order so that the result
+    // does not depend on the hash order when two keys collide ("a" and "a.b")
+    let mut entries: Vec<(&String, &Value)> = config.config.iter().collect();
+    entries.sort_by(|a, b| a.0.cmp(b.0));
+    for (k, v) in entries {
         let keys: Vec<&str> = k.split('.').collect();
-        let mut current = &mut emmyrc;
-        for i in 0..keys.len() {
-            let key = keys[i];
-            if i == keys.len() - 1 {
-                current[key] = v.clone();
-            } else {
-                current = current
-                    .as_object_mut()
-                    .expect("always an object")
-                    .entry(key.to_string())
-                    .or_insert(Value::Object(Default::default()));
-            }
-        }
+        insert_path(&mut emmyrc, &keys, v);
     }
     emmyrc
+}
+
+fn insert_path(current: &mut Value, keys: &[&str], value: &Value) {
+    // a key that is both a value and a prefix of another key: the longer key wins
+    if !current.is_object() {
+        *current = Value::Object(Default::default());
+    }
+    let Value::Object(map) = current else {
+        return;
+    };
+    match keys {
+        [] => {}
+        [last] => {
+            map.insert(last.to_string(), value.clone());
+        }
+        [first, rest @ ..] => insert_path(
+            map.entry(first.to_string())
+                .or_insert(Value::Object(Default::default())),
+            rest,
+            value,
+        ),
+    }
 }
